@@ -801,6 +801,8 @@ func RPCReplenishAccounts(ctx context.Context, t TransportClient, p RPCReplenish
 	var resp rhp4.RPCReplenishAccountsResponse
 	if err := rhp4.ReadResponse(s, &resp); err != nil {
 		return RPCReplenishAccountsResult{}, fmt.Errorf("failed to read response: %w", err)
+	} else if len(resp.Deposits) != len(p.Accounts) {
+		return RPCReplenishAccountsResult{}, clientErrf("expected %v deposits, got %v", len(p.Accounts), len(resp.Deposits))
 	}
 
 	for _, deposit := range resp.Deposits {
